@@ -195,7 +195,9 @@ def structure_tables(ctx, repo, rule):
                          "error_keys": [f"{tag}Err"]}, name=f"{tag}-log")
         return cfg, log
     A = pack("A", ["Out1", "Out2", "Shared", "OnlyA_cfg"], ["P1", "UdP1", "Shared", "OnlyA_log"], ["Out1", "Out2"], ["P1", "P2"], ["UdP1"])
-    B = pack("B", ["Out1", "Shared"], ["BL", "UdBL", "Shared"], ["Out1"], ["BL"], ["UdBL"])
+    # B's lists are neither sorted nor length-ordered: the structure must keep the table's own order
+    B_OUT, B_DEV, B_UD = ["Out9", "Out1", "OutLi"], ["Waterfall", "P1", "BL", "P10", "LI"], ["UdWaterfall", "UdP1", "UdBL", "UdLI"]
+    B = pack("B", ["Out1", "Shared"], ["BL", "UdBL", "Shared"], B_OUT, B_DEV, B_UD)
     n = 0
     for cname in ("GeckoStructure", "GeckoAsyncStructure"):
         c = repo.cls(cname)
@@ -221,8 +223,8 @@ def structure_tables(ctx, repo, rule):
                    f"{cname}.build_accessors ({'after another pack was loaded before' if label == 'reload' else 'first load'}) leaves the items {got}, expected exactly the loaded pair's {want}"
                    + (f": {extra} belong to the earlier pack - sensors and devices would be offered for items this spa does not have" if extra else ""),
                    fi.loc, sample={"rule": rule, "structure": cname, "case": label, "items": sorted(got) if isinstance(got, dict) else str(got)})
-            ctx.ob(rule, f"{cname}.build_accessors::{label}::lists", lists == (["Out1"], ["BL"], ["UdBL"]),
-                   f"{cname}.build_accessors ({label}) leaves outputs/devices/demands {lists}, expected the loaded pair's (['Out1'], ['BL'], ['UdBL'])", fi.loc)
+            ctx.ob(rule, f"{cname}.build_accessors::{label}::lists", lists == (B_OUT, B_DEV, B_UD),
+                   f"{cname}.build_accessors ({label}) leaves outputs/devices/demands {lists}, expected the loaded pair's own lists in the table's own order {(B_OUT, B_DEV, B_UD)}", fi.loc)
     ctx.floor(rule, "structure loads interpreted", n, 4)
 
 
@@ -266,7 +268,8 @@ def check(ctx):
     # R1-R3 by interpretation on model wirings (vlib/facademodel.py): both scans against the statement
     from ..facademodel import inventory
     inv = inventory(ctx, repo, "R1", SCANS)
-    check_table_order_source(ctx, repo)
+    # source end of the order (struct.all_devices / user_demands are the table's lists, in table order): decided on the
+    # structure model of R8 (the shape rule check_table_order_source alarmed on a table-driven setattr loop and was retired)
     scans = []
     diff = sorted({(w, d) for (w, d, c) in inv if inv[(w, d, c)] != inv.get((w, d, SCANS[0][0]))})
     ctx.ob("R2", "scan-siblings-agree", not diff, f"the async and the blocking scan build different inventories for wirings {diff[:3]}", repo.method(*SCANS[1]).loc)
